@@ -1,5 +1,5 @@
 # Per-property manifest texts (level claimed, trusted base, technique)
-HOOK_COMMITS = []
+HOOK_COMMITS = ["408bacd"]
 
 NOTES = ("All checks are runtime monitors: they rebuild /repo's working tree (ninja, content of command line + mtimes) with "
          "-DCOLOQUINTE_VERIF into /verif/build/<variant>, run generated workloads in fork-isolated workers and evaluate "
@@ -35,4 +35,42 @@ LEVEL_TEXT = {
             "technique": "runtime monitoring with exhaustive fault injection at callback boundaries"},
     "C11": {"text": "Exploration: legal placements from two sources re-legalized; any movement outside the recorded parameter region is a violation.",
             "note": "Known finding (orderingWidth outside [0,1]) recorded in known_findings.json.", "technique": _T},
+    "C06": {"text": "Exploration: placeGlobal on generated circuits x fuzzed accepted parameter sets; monitors evaluated inside every "
+                    "LowerBound/UpperBound callback and on return (finite coordinates, centre inside the rows' bounding box, blend identity).",
+            "note": "Tolerance comparisons (rounding + float ulp) derived in DESIGN.md; one degenerate situation is a recorded known finding.",
+            "technique": _T + " incl. -fsanitize=float-cast-overflow; callback-state monitors"},
+    "C08": {"text": "Exploration of schedules: hook-forced completion orders of the two concurrent solves (both orders observed per run, logged), "
+                    "single-core and all-core affinity, random delays, plus repeated/copied/interleaved runs for all stages, plus the same "
+                    "workload under ThreadSanitizer.",
+            "note": "Schedule coverage = the two completion orders per step and random begin delays, not all instruction interleavings; TSan judges the executions produced.",
+            "technique": "runtime monitoring: schedule forcing through a guarded hook + bitwise comparison of results + ThreadSanitizer"},
+    "C09": {"text": "Exploration: reference HPWL (own DEF transform table) vs Circuit::hpwl and per-pin transforms; IncrNetModel vs from-scratch "
+                    "1-D HPWL over random update histories and cell subsets; DetailedPlacer::value vs reference after every pass.",
+            "note": "Trusted: the 8-entry transform table in harness/circ.hpp.", "technique": _T + "; reference-model monitor over update histories"},
+    "C12": {"text": "Exploration with an exhaustive core: all 3.7M insertion sequences within the stated small bounds plus random/large ones, "
+                    "each judged by an isotonic-L1 DP optimum (cross-checked by brute force) and by prediction/push/state-unchanged oracles.",
+            "note": "Exhaustive only within segment length <= 7, widths 1..3, <= 4 cells.", "technique": _T + "; reference-model (DP) monitor; bounded exhaustive enumeration"},
+    "C13": {"text": "Exploration with an exhaustive tiny core: solver output judged by feasibility oracles and equality with an independent "
+                    "min-cost-flow optimum (lemon NetworkSimplex, cross-checked by brute force).",
+            "note": "Trusted: lemon NetworkSimplex in 64-bit.", "technique": _T + "; reference-model monitor"},
+    "C14": {"text": "Exploration with an exhaustive tiny core: plan validity + optimal cost vs lemon; rounded assignment oracles; ASan watches the result vector.",
+            "note": "Trusted: lemon NetworkSimplex.", "technique": _T + "; reference-model monitor"},
+    "C15": {"text": "Exploration with an exhaustive small grid (2.9M obstacle configurations): set equality between returned segments and a per-column oracle.",
+            "note": "Well-formed rectangles only; touching segments merged before comparison.", "technique": _T + "; bounded exhaustive enumeration"},
+    "C16": {"text": "Exploration of histories: independent capacity oracle at construction, then conservation / one-bin / inside-bin invariants after "
+                    "every step of random refine/coarsen/improve/run histories; library check() asserts live.",
+            "note": "Trusted: free-segment oracle.", "technique": _T + "; invariant monitor at quiescent points of operation histories"},
+    "C17": {"text": "Exploration, metamorphic + reference: bitwise invariance under power-of-two weight scaling (model and whole placeGlobal), tolerance "
+                    "invariance under non-dyadic scaling, dense double-precision least-squares reference for star / two-pin models.",
+            "note": "Tolerance comparisons restricted to positive-definite, well-conditioned (cond1 <= 2000) systems; otherwise normwise backward error.",
+            "technique": "runtime monitoring: metamorphic relations between runs + dense reference solver"},
+    "C18": {"text": "Exploration: frame, monotonicity and density-bound oracles against an independent available-area computation; brute-force congestion factors.",
+            "note": "Rounding tolerances documented in DESIGN.md.", "technique": _T},
+    "C19": {"text": "Exploration with exhaustive windows: every effort in [-16,32], every single out-of-range parameter x 3 entry points, all wrong-length "
+                    "setters and malformed nets, one probe per forked process in ASan/UBSan+assert and NDEBUG+sanitizer builds.",
+            "note": "NaN parameters are out of scope (not rejected by the check).", "technique": "runtime monitoring: sanitizer-decided probes in forked processes + frame oracle"},
+    "C20": {"text": "Exploration (round trip through the real writer and the real Python reader, field-by-field comparison + wirelength) and an "
+                    "exhaustive pass over the binding table (every registration executed and compared by value with the same-named C++ entity).",
+            "note": "Trusted base: recording stand-in for pybind11, pure-Python stand-in for the compiled module, CPython. The real pybind11 is absent from the sandbox.",
+            "technique": "runtime monitoring: round-trip oracle + recording stand-in executing the real binding code"},
 }
